@@ -127,7 +127,10 @@ def conv_name_writer(conv, prefix):
         return "identity"
     if conv == ["attr", ["X"], "value"]:
         return "enum"
-    for kind, name in (("duration", "timedelta_ms"), ("timestamp", "datetime_ms")):
+    order = (("duration", "timedelta_ms"), ("timestamp", "datetime_ms"))
+    if "datetime.datetime(" in repr(conv):
+        order = order[::-1]  # a datetime constant (the epoch) takes part: the value is a point in time, not a duration
+    for kind, name in order:
         carrier = "timedelta" if kind == "duration" else "datetime"
         q = timeflow.analyse(conv, timeflow.Q(carrier, gran="1us"))
         if q is not None and q.carrier == "int" and q.unit == "ms":
